@@ -11,6 +11,23 @@ EQ = os.path.join(ROOT, "equivalent")
 REPO = "/repo"
 
 
+def _stash_evidence():
+    """Checks rewrite evidence/<id>.json on every run; runs against a deliberately broken /repo must not
+    leave their evidence behind (committed evidence has to come from the unchanged tree)."""
+    import glob, tempfile
+    d = tempfile.mkdtemp(prefix="evidence-stash-")
+    for f in glob.glob(os.path.join(ROOT, "evidence", "C*.json")):
+        shutil.copy(f, d)
+    return d
+
+
+def _restore_evidence(d):
+    import glob
+    for f in glob.glob(os.path.join(d, "C*.json")):
+        shutil.copy(f, os.path.join(ROOT, "evidence"))
+    shutil.rmtree(d, ignore_errors=True)
+
+
 def imp(wt, k, area, props):
     src = os.path.join(wt, "refactor_out", str(k))
     os.makedirs(EQ, exist_ok=True)
@@ -26,6 +43,14 @@ def imp(wt, k, area, props):
 
 
 def check(ids):
+    stash = _stash_evidence()
+    try:
+        _check(ids)
+    finally:
+        _restore_evidence(stash)
+
+
+def _check(ids):
     for d in sorted(os.listdir(EQ)):
         if ids and d not in ids:
             continue
